@@ -10,6 +10,8 @@ for f in sorted(glob.glob('/verif/seeded/*/meta.json')):
     note = ''
     if m.get('history') and not first:
         note = ' (missed at first; check strengthened)'
+    if m.get('obsolete'):
+        note += ' (obsolete: cannot be expressed on the current tree, see meta.json)'
     rows.append('| %s | %s | %s | %s%s |' % (n, m.get('title', '')[:110].replace('|', '/'), (m.get('needs_to_manifest') or '')[:160].replace('|', '/').replace('\n', ' '), caught, note))
 print('| seeded change | what it does | needs, to manifest | caught by |\n|---|---|---|---|')
 print('\n'.join(rows))
